@@ -1,7 +1,7 @@
 (* C05 -- serialization always emits well-formed JSON that denotes the serialized value.
    Statements only. *)
 From Coq Require Import List NArith Arith Bool.
-From SonicV Require Import Base.Blocks Model.Escape Model.TablesOk Model.Pretty Model.SerRoundTrip Gen.Tables.
+From SonicV Require Import Base.Blocks Model.Escape Model.TablesDefs Model.TablesOk Model.Pretty Model.SerRoundTrip Gen.Tables.
 Import ListNotations.
 Local Close Scope N_scope.
 Local Open Scope nat_scope.
